@@ -116,6 +116,7 @@ class Interp:
         self.uncaught = 0
         self.call_stack = []
         self.strict_undef = True
+        self.pending_ctors = []
         self.live_exceptions = {}
         from . import models
         models.install(self)
@@ -361,6 +362,10 @@ class Interp:
             if init is not None:
                 self.store_const(a, init)
                 self.regions[a >> SHIFT].const = is_const
+                ctor = m.ctor_of_global.get(name)
+                if ctor is not None and not name.endswith('_data_mapper_lst'):
+                    # dynamic initialiser of an inline static data member (e.g. q_min_ = 36/sqrt(3)): run it now
+                    self.pending_ctors.append(ctor)
             else:
                 self.regions[a >> SHIFT].kind = 'extern'
                 self.regions[a >> SHIFT].size = max(size, 4096)
@@ -708,6 +713,11 @@ class Interp:
         return ('missing', None, name)
 
     # --------------------------------------------------------------- execution
+    def run_pending_ctors(self):
+        while self.pending_ctors:
+            c = self.pending_ctors.pop()
+            self.invoke_target(self.resolve_callee(c), [])
+
     def call_function(self, name, args):
         t = self.resolve_callee(name)
         return self.invoke_target(t, args)
@@ -719,6 +729,8 @@ class Interp:
             cf = self.compiled.get(f.name)
             if cf is None:
                 cf = self.compile(f)
+                if self.pending_ctors:
+                    self.run_pending_ctors()
             return self.run(cf, args)
         if k == 'py':
             return t[1](self, args)
